@@ -1022,6 +1022,14 @@ func (rl *Shell) shellKillWord() {
 
 	_, epos := rl.selection.Pos()
 
+	// Nothing to kill after the cursor (end of line, empty line).
+	if epos < startPos {
+		rl.cursor.Set(startPos)
+		rl.selection.Reset()
+
+		return
+	}
+
 	rl.Buffers.Write([]rune((*rl.line)[startPos:epos])...)
 	rl.line.Cut(startPos, epos)
 	rl.cursor.Set(startPos)
